@@ -114,7 +114,7 @@ const CAP: u64 = 1_000_000;
 fn denom(asset: &str) -> Denom {
     match asset {
         "nria" => nria().into(),
-        "xfer" => "transfer/channel-0/utia".parse().unwrap(),
+        "xfer" => "transfer/channel-10/utia".parse().unwrap(),
         other => panic!("unknown asset {other}"),
     }
 }
@@ -138,8 +138,9 @@ fn real(v: u64) -> u128 {
 
 fn chan_ids(c: &str) -> (ChannelId, ChannelId) {
     match c {
-        "c0" => (ChannelId::new(0), ChannelId::new(7)),
-        "c1" => (ChannelId::new(1), ChannelId::new(8)),
+        // on both chains one channel id is a textual prefix of the other
+        "c0" => (ChannelId::new(10), ChannelId::new(70)),
+        "c1" => (ChannelId::new(1), ChannelId::new(7)),
         other => panic!("unknown channel {other}"),
     }
 }
@@ -383,6 +384,77 @@ async fn run_case(w: &mut World, c: &Value) -> Value {
                 },
             }
         }
+        "withdraw2" => {
+            let g = &a["arg"];
+            let signer = g["a"].as_u64().unwrap();
+            let mk = |amt: u64| Ics20Withdrawal {
+                amount: real(amt),
+                denom: denom(g["asset"].as_str().unwrap()),
+                destination_chain_address: "somewhere-else".to_string(),
+                return_address: addr(signer),
+                timeout_height: Height::new(2, 100).unwrap(),
+                timeout_time: 200_000_000_000,
+                source_channel: chan_ids(g["chan"].as_str().unwrap()).0,
+                fee_asset: nria().into(),
+                memo: String::new(),
+                bridge_address: None,
+                use_compat_address: false,
+            };
+            let body = TransactionBody::builder()
+                .actions(vec![mk(g["amt1"].as_u64().unwrap()).into(), mk(g["amt2"].as_u64().unwrap()).into()])
+                .chain_id("test")
+                .nonce(0)
+                .try_build()
+                .unwrap();
+            let bytes = Bytes::from(body.sign(&key(signer)).into_raw().encode_to_vec());
+            match CheckedTransaction::new(bytes, w.fixture.state()).await {
+                Err(_) => "fail".to_string(),
+                Ok(tx) => match w.fixture.app.execute_transaction(Arc::new(tx)).await {
+                    Ok(_) => "ok".to_string(),
+                    Err(_) => "fail".to_string(),
+                },
+            }
+        }
+        "deliver" => {
+            let p = &a["arg"]["p"];
+            let (ours, theirs) = chan_ids(p["chan"].as_str().unwrap());
+            let packet = Packet {
+                sequence: Sequence(p["id"].as_u64().unwrap()),
+                port_on_a: PortId::transfer(),
+                chan_on_a: ours,
+                port_on_b: PortId::transfer(),
+                chan_on_b: theirs,
+                data: serde_json::to_vec(&packet_data_of_outgoing(p)).unwrap(),
+                timeout_height_on_b: TimeoutHeight::Never,
+                timeout_timestamp_on_b: ibc_types::timestamp::Timestamp {
+                    time: None,
+                },
+            };
+            w.fixture.state_mut().ephemeral_put_ibc_context(TransactionId::new([0; 32]), 0);
+            let canonical: Vec<u8> = TokenTransferAcknowledgement::success().into();
+            let acknowledgement = match a["arg"]["form"].as_str().unwrap() {
+                "canonical" => canonical,
+                // the same JSON value written with other white space
+                _ => {
+                    let v: serde_json::Value = serde_json::from_slice(&canonical).unwrap();
+                    let mut b = serde_json::to_vec_pretty(&v).unwrap();
+                    b.push(b'\n');
+                    b
+                }
+            };
+            let msg = MsgAcknowledgement {
+                packet,
+                acknowledgement,
+                proof_acked_on_b: no_proof(),
+                proof_height_on_b: Height::new(0, 1).unwrap(),
+                signer: String::new(),
+            };
+            let res = match Ics20Transfer::acknowledge_packet_check(w.fixture.state(), &msg).await {
+                Err(e) => Err(e),
+                Ok(()) => Ics20Transfer::acknowledge_packet_execute(w.fixture.state_mut(), &msg).await,
+            };
+            if res.is_ok() { "ok".to_string() } else { "fail".to_string() }
+        }
         "timeout" | "ack_fail" => {
             let p = &a["arg"];
             let (ours, theirs) = chan_ids(p["chan"].as_str().unwrap());
@@ -434,6 +506,8 @@ async fn run_case(w: &mut World, c: &Value) -> Value {
             let denom_on_wire = match g["wire"].as_str().unwrap() {
                 "nria_back" => format!("transfer/{theirs}/{}", nria()),
                 "utia" => "utia".to_string(),
+                // a third chain's voucher whose first hop is channel-70 (resp. channel-700), arriving over channel-7 (-70)
+                "hop" => format!("transfer/{theirs}0/{}", nria()),
                 other => panic!("unknown wire denom {other}"),
             };
             let receiver = match g["rc"].as_str().unwrap() {
@@ -516,7 +590,7 @@ async fn run_case(w: &mut World, c: &Value) -> Value {
     if expected_out == "fail" {
         // a failed withdrawal / refund is dropped with its transaction: through execute_transaction nothing may
         // remain; for the directly called handlers the caller (penumbra + the tx delta) discards the writes
-        if op == "withdraw" {
+        if op == "withdraw" || op == "withdraw2" {
             let d = diff_dumps(&after, &before);
             if !d.is_empty() || view != before_view {
                 mism.push(json!({"sig": format!("ibc:{tag}:failed-step-left-writes"), "detail": {"keys": d, "arg": a["arg"]}}));
